@@ -543,6 +543,34 @@ pub fn check_ext(obs: &Obs, out: &mut CaseOut) -> ExtSummary {
             sum.faulty_handed_state += 1;
         }
     }
+    // The n-th `id_for` call of a name refused once (every item behaves). Whatever the runtime makes
+    // of it - the agent does not start, the runtime stops with the error, or it goes on - is judged
+    // by the rules of `oracle::check`: what a remote is shown was stored before, at every cut the
+    // store is not older than what was shown, a restart is handed exactly the stored state.
+    if let Some((name, n)) = &plan.id_fails_nth {
+        let item = match plan.lanes.iter().position(|l| l.name == *name) {
+            Some(l) => format!("lane/{}", path(plan.dynamic[l])),
+            None => match plan.stores.iter().position(|s| s.name == *name) {
+                Some(i) => format!("store/{}", path(plan.store_dynamic[i])),
+                None => "unknown".to_string(),
+            },
+        };
+        if obs.id_refused.is_empty() {
+            out.count(&format!("init-fault/id-for-call-{n}/{item}/call-not-made"));
+        } else {
+            sum.faults_run += 1;
+            let outcome = match &obs.agent_result {
+                Some(Err(_)) => "runtime-ended-with-error",
+                Some(Ok(())) => "runtime-went-on",
+                None => "crashed-later",
+            };
+            out.count(&format!("init-fault/id-for-call-{n}/{item}/refused/{outcome}"));
+            // Frames the remotes were shown for that name after the refusal (each is judged by rule 1).
+            let (t, _) = &obs.id_refused[0];
+            let shown = obs.sessions.iter().flat_map(|s| s.frames.iter()).filter(|fr| fr.node == NODE && fr.lane == *name && fr.kind == FrameKind::Event && fr.ticket > *t).count();
+            out.add("init-fault/id-for-call-refused/event-frames-of-the-name-afterwards", shown as u64);
+        }
+    }
     if !obs.id_refused.is_empty() {
         out.count("init-fault/id-for-refused");
         // Nothing may be written under a name whose identifier the store refused to give.
